@@ -22,7 +22,7 @@ def gen(rng: random.Random, tier: str):
         ops = []; cur = L
         alts = [v1] + [sorted(rng.sample(universe, rng.randint(1, len(universe)))) for _ in range(2)]      # a small pool, so the same alternate vocabulary recurs within a history
         for _k in range(rng.randint(1, 6)):
-            kind = rng.choice(["ids", "numbers", "numbers", "getitem", "withvocab", "fields", "len", "ranks", "ranks", "copyids", "copynums", "copyboth", "copyidsvocab", "dropfield", "setfield", "setfield", "convert", "convert", "setnested"])
+            kind = rng.choice(["ids", "numbers", "numbers", "getitem", "withvocab", "fields", "len", "ranks", "ranks", "copyids", "copynums", "copyboth", "copyidsvocab", "dropfield", "setfield", "setfield", "convert", "convert", "setnested", "setordered"])
             if kind == "convert": ops.append({"op": "convert", "via": rng.choice(["arrow", "frame", "pickle", "torch", "arrow-numbers"])}); continue
             if kind == "numbers":
                 alt = rng.choice([None] + alts)
@@ -33,7 +33,7 @@ def gen(rng: random.Random, tier: str):
                 elif style == "slice":
                     a = rng.randint(0, cur); b = rng.randint(a, cur); sel = list(range(a, b))
                 else: sel = [rng.randrange(cur) for _ in range(rng.randint(0, cur))] if cur else []
-                ops.append({"op": "getitem", "sel": sel, "style": style}); cur = len(sel)
+                ops.append({"op": "getitem", "sel": sel, "style": style, "form": rng.choice(["array", "array", "list", "tuple"]) if style == "mask" else rng.choice(["array", "list"])}); cur = len(sel)
             elif kind == "withvocab":
                 ops.append({"op": "withvocab", "vocab": rng.choice(alts)})
             elif kind in ("copyids", "copyboth", "copyidsvocab", "copynums"):
@@ -52,6 +52,7 @@ def gen(rng: random.Random, tier: str):
                 vals = [rng.randint(-5, 5) for _ in range(cur if rng.random() < 0.8 else rng.randint(0, 5))]
                 if nm == "f3" and rng.random() < 0.35: vals = [-5] * len(vals)          # NaN for every item
                 ops.append({"op": "setfield", "name": nm, "vals": vals})
+            elif kind == "setordered": ops.append({"op": "setordered", "flag": rng.random() < 0.4})          # a copy with the ordering flag given (mostly: an unordered copy)
             elif kind == "setnested":
                 # a field given as a nested plain sequence (two values per item): the right outer length, the wrong dimensionality
                 ops.append({"op": "setnested", "name": rng.choice(["f1", "f2"]), "vals": [rng.randint(-5, 5) for _ in range(cur)], "as": rng.choice(["list", "tuple", "list-of-arrays"])})
@@ -64,7 +65,9 @@ def gen(rng: random.Random, tier: str):
                 newids = rng.sample(universe + [999], min(cur, len(universe) + 1)); ops.append({"op": "copyids", "ids": newids}); cur = len(newids)
             else: ops.append({"op": "copynums", "nums": [rng.randrange(len(v1)) for _ in range(cur)]})
             ops.append({"op": "numbers", "vocab": alt, "missing": miss})
-        yield {"mode": mode, "ids": ids, "nums": nums, "vocab": v1, "f1": f1, "ops": ops, "ordered": rng.random() < 0.5}
+        ordered0 = rng.random() < 0.5
+        if rng.random() < 0.1: ops += [{"op": "ranks"}, {"op": "setordered", "flag": False}, {"op": "ranks"}]; ordered0 = True          # directed: ranks cached on an ordered list, then an unordered copy is asked for its ranks
+        yield {"mode": mode, "ids": ids, "nums": nums, "vocab": v1, "f1": f1, "ops": ops, "ordered": ordered0}
 
 def run(case: dict, lean: Lean) -> Outcome:
     from lenskit.data import ItemList, Vocabulary
@@ -100,9 +103,11 @@ def run(case: dict, lean: Lean) -> Outcome:
             elif k == "getitem":
                 sel = op["sel"]; mops.append({"op": "getitem", "sel": sel, "style": op["style"]})
                 if op["style"] == "mask":
-                    m = np.zeros(len(cur), dtype=bool); m[sel] = True; cur = cur[m]
+                    m = np.zeros(len(cur), dtype=bool); m[sel] = True
+                    form = op.get("form", "array") if len(cur) else "array"          # the selector as a NumPy array, or as the plain list / tuple a caller may just as well write (an empty plain list has no element type and is left out)
+                    cur = cur[m] if form == "array" else cur[[bool(x) for x in m]] if form == "list" else cur[tuple(bool(x) for x in m)]
                 elif op["style"] == "slice": cur = cur[sel[0]:sel[-1] + 1] if sel else cur[0:0]
-                else: cur = cur[np.array(sel, dtype="i8")]
+                else: cur = cur[np.array(sel, dtype="i8")] if (op.get("form", "array") == "array" or not sel) else cur[[int(x) for x in sel]]
                 real.append("ok")
             elif k == "withvocab":
                 mops.append({"op": "withvocab", "vocab": op["vocab"]}); cur = ItemList(cur, vocabulary=vocab(op["vocab"])); real.append("ok")
@@ -137,6 +142,8 @@ def run(case: dict, lean: Lean) -> Outcome:
                 mops.append(dict(op))
                 arr = np.array([np.nan if v == -5 else float(v) for v in op["vals"]], dtype="f8") if op["name"] == "f3" else np.array(op["vals"], dtype="i8")
                 cur = ItemList(cur, **{op["name"]: arr}); real.append("ok")
+            elif k == "setordered":
+                mops.append({"op": "setordered", "flag": bool(op["flag"])}); cur = ItemList(cur, ordered=bool(op["flag"])); real.append("ok")
             elif k == "setnested":
                 # for the model a field has exactly one value per item: the 2n values of the nested sequence are not one per item (n ≥ 1)
                 nv = (list(op["vals"]) + [0] * len(cur))[:len(cur)]          # one row per item of the list as it is now
